@@ -25,6 +25,15 @@ impl N {
             N::B(b) => b.into(),
         }
     }
+    pub fn from_val(v: &CelValue) -> Option<N> {
+        match v {
+            CelValue::Int(i) => Some(N::I(*i)),
+            CelValue::UInt(u) => Some(N::U(*u)),
+            CelValue::Float(f) => Some(N::F(*f)),
+            CelValue::Bool(b) => Some(N::B(*b)),
+            _ => None,
+        }
+    }
     fn ty(self) -> &'static str {
         match self {
             N::I(_) => "int",
@@ -413,6 +422,83 @@ pub fn run(ctx: &mut Ctx) {
                 );
             }
         }
+    });
+
+    // ---- chains: a op1 b op2 c groups to the left, whichever operands are literals ---------------------
+    // The compiler sees constant neighbours in a chain (`x + 1 + 2`): whatever it does with them, the result is
+    // that of the two operations done one after the other, left to right, each exact or failing. Reference: the
+    // all-variable chain (nothing to fold) and the model applied step by step.
+    let ng3 = g.len() as u64;
+    let nchain = ctx.n(60_000, 600_000);
+    ctx.stage("chains", nchain, true, |_idx, rng, rep| {
+        let pick = |rng: &mut Rng| -> N {
+            if rng.chance(2, 3) {
+                g[rng.below(ng3 as usize)]
+            } else {
+                let k = rng.below(6);
+                random_n(rng, k)
+            }
+        };
+        // same numeric kind most of the time, so that chains do not die at the first type error
+        let a = pick(rng);
+        let (b, c) = if rng.chance(3, 4) {
+            let same = |rng: &mut Rng, like: N| -> N {
+                for _ in 0..40 {
+                    let x = pick(rng);
+                    if x.ty() == like.ty() {
+                        return x;
+                    }
+                }
+                like
+            };
+            (same(rng, a), same(rng, a))
+        } else {
+            (pick(rng), pick(rng))
+        };
+        let (k1, k2) = (rng.below(5), rng.below(5));
+        let (op1, op2) = (OPS[k1], OPS[k2]);
+        let binds = vec![("a".to_string(), a.val()), ("b".to_string(), b.val()), ("c".to_string(), c.val())];
+        // what the chain means: * / % bind tighter than + -, equal levels group to the left; the parenthesised
+        // all-variable form is evaluated by the run-time operators one after the other
+        let tight = |o: &str| o == "*" || o == "/" || o == "%";
+        let left = !(tight(op2) && !tight(op1));
+        let grouped = mon::run1(&if left { format!("(a {} b) {} c", op1, op2) } else { format!("a {} (b {} c)", op1, op2) }, &binds);
+        let (sa, sb, sc) = (vals::spell(&a.val()).unwrap(), vals::spell(&b.val()).unwrap(), vals::spell(&c.val()).unwrap());
+        rep.count(&format!("chain_ops/{}{}", op1, op2));
+        for mask in 0..8u32 {
+            let x = if mask & 1 != 0 { sa.as_str() } else { "a" };
+            let y = if mask & 2 != 0 { sb.as_str() } else { "b" };
+            let z = if mask & 4 != 0 { sc.as_str() } else { "c" };
+            let src = format!("{} {} {} {} {}", x, op1, y, op2, z);
+            let out = mon::run1(&src, &binds);
+            rep.eval();
+            rep.digest(&out.canon_anyerr());
+            if out.canon_anyerr() != grouped.canon_anyerr() {
+                rep.viol(
+                    &format!("chain|{}{}|literals={:03b}|{}", op1, op2, mask, match (&grouped, &out) {
+                        (_, Out::Panic(..)) => "panic",
+                        (Out::Val(_), Out::Val(_)) => "wrong-value",
+                        (Out::Val(_), _) => "error-instead-of-value",
+                        _ => "value-instead-of-error",
+                    }),
+                    &format!("`{}` with a={} b={} c={} gives {} but the operations done one after the other give {}", src, canon(&a.val()), canon(&b.val()), canon(&c.val()), out.show(), grouped.show()),
+                    json!({"source": src, "a": canon(&a.val()), "b": canon(&b.val()), "c": canon(&c.val())}),
+                );
+            }
+        }
+        // and the first step against the model (the second step is the single-operation stages' business)
+        let first = if left { mon::run1(&format!("a {} b", op1), &binds) } else { Out::Err(rscel::CelError::misc("n/a")) };
+        if let Out::Val(v) = &first {
+            if let Some(n1) = N::from_val(v) {
+                let second = mon::run1(&format!("t {} c", op2), &[("t".to_string(), v.clone()), ("c".to_string(), c.val())]);
+                check(rep, "chain-step", op2, n1, c, &format!("t {} c", op2), &second);
+                if second.canon_anyerr() != grouped.canon_anyerr() {
+                    rep.viol("chain|grouped-differs-from-steps", &format!("(a {} b) {} c = {} but the second step alone gives {}", op1, op2, grouped.show(), second.show()), json!({"a": canon(&a.val()), "b": canon(&b.val()), "c": canon(&c.val())}));
+                }
+            }
+        }
+        rep.distinct(&format!("{}{}{}{}{}", sa, op1, sb, op2, sc), true);
+        rep.sample(|| json!({"stage":"chains","source":format!("{} {} {} {} {}", sa, op1, sb, op2, sc),"outcome":grouped.show()}));
     });
 
     // ---- random 64-bit operands ------------------------------------------------------------
